@@ -252,7 +252,7 @@ func runC06(c *Ctx) error {
 			switch c.Rng.IntN(4) {
 			case 0:
 			default:
-				s.port = []int{22, 53, 80, 443, 8080, 0, 65535}[c.Rng.IntN(7)]
+				s.port = []int{22, 53, 80, 443, 8080, 0, 65535, 65536, 65558, 131094, 70000}[c.Rng.IntN(11)]
 			}
 			switch c.Rng.IntN(10) {
 			case 0, 1, 2:
@@ -308,7 +308,7 @@ func runC06(c *Ctx) error {
 				if len(g.svcs) > 0 && c.Rng.IntN(2) == 0 {
 					sv := g.svcs[c.Rng.IntN(len(g.svcs))]
 					if sv.port >= 0 {
-						port = sv.port
+						port = sv.port & 0xFFFF // what a packet can carry: the port the URL names, modulo 2^16
 					} else {
 						port = []int{80, 443, 0}[c.Rng.IntN(3)]
 					}
@@ -379,7 +379,7 @@ func runC06(c *Ctx) error {
 			pk := c06Pkt{ver: 6, src: S.id.IP, dst: selfID.IP, proto: []int{6, 17, 58, 6, 17, 132}[c.Rng.IntN(6)], sport: 1024 + c.Rng.IntN(5), dport: ports[c.Rng.IntN(len(ports))], length: 44 + c.Rng.IntN(60)}
 			if len(g.svcs) > 0 && c.Rng.IntN(2) == 0 {
 				if sv := g.svcs[c.Rng.IntN(len(g.svcs))]; sv.port >= 0 {
-					pk.dport = sv.port
+					pk.dport = sv.port & 0xFFFF
 				}
 			}
 			unsealed := true
